@@ -119,8 +119,8 @@ PLAN = {
         "prop": ["PassImplementsRel"],
         "mc_quick": [("CfgsQ2", {"faults": 0, "maxclock": 0})],
         "vacuity": [],
-        "scen_quick": ["h1-origins-port", "h1-origins-scheme", "h1-origins-host"],
-        "scen_thorough": ["h1-origins-port", "h1-origins-scheme", "h1-origins-host", "h2-alpn-max1-AAB"],
+        "scen_quick": ["h1-origins-port", "h1-origins-scheme", "h1-origins-host", "stun-sharedctx-max2-AB", "tun-max1-AAB"],
+        "scen_thorough": ["h1-origins-port", "h1-origins-scheme", "h1-origins-host", "h2-alpn-max1-AAB", "stun-sharedctx-max2-AB", "tun-max1-AAB", "socks-max1-AAB", "fwd-max1-AAB"],
         "strategies": ["base", "dfs", "sequential"],
     },
     "C16": {
